@@ -5,5 +5,4 @@ CONSTANTS
   Srcs = {"cmd", "cfgstr", "native", "flag", "unknown", "unset"}
   MaxParts = 2
 VIEW View
-INVARIANT T_Spellings
 CHECK_DEADLOCK FALSE
